@@ -34,6 +34,9 @@ type Strategy struct {
 
 func RU(p int32) Strategy { return Strategy{Type: "RollingUpdate", Partition: &p} }
 func OnDelete() Strategy  { return Strategy{Type: "OnDelete", RUNil: true} }
+
+// OnDeleteWithBlock: type OnDelete with a leftover rollingUpdate block (as after a merge patch of the type only).
+func OnDeleteWithBlock(p int32) Strategy { return Strategy{Type: "OnDelete", Partition: &p} }
 func (s Strategy) String() string {
 	if s.Type == "RollingUpdate" && s.Partition != nil {
 		return fmt.Sprintf("RU(p=%d)", *s.Partition)
